@@ -20,14 +20,14 @@ def Obs.view : Obs → Option SpecObs
   | .routed r => some (.routed r.invoked)
 
 def Op.WF : Op → Prop
-  | .add _ a => a.WF
+  | .add _ a => a.WFAll
   | _ => True
 
 /-- Simulation relation. -/
 structure Sim (s : Router) (g : SpecRouter) : Prop where
   next : s.nextId = g.count
   rules : s.rules = g.live.map Reg.entry
-  wf : ∀ r ∈ g.live, r.args.WF
+  wf : ∀ r ∈ g.live, r.args.WFAll
   lt : ∀ r ∈ g.live, r.id < g.count
 
 theorem dictSet_fresh (k : Nat) (e : Entry) (l : List Entry) (h : ∀ x ∈ l, x.id ≠ k) :
@@ -39,29 +39,29 @@ theorem dictSet_fresh (k : Nat) (e : Entry) (l : List Entry) (h : ∀ x ∈ l, x
     simp only [dictSet, hx, if_false, List.cons_append]
     rw [ih (fun y hy => h y (by simp [hy]))]
 
-theorem routeList_invoked (raises : Nat → Cb → Bool) (m : Msg) (l : List Reg) (hwf : ∀ r ∈ l, r.args.WF) :
+theorem routeList_invoked (raises : Nat → Cb → Bool) (m : Msg) (l : List Reg) (hwf : ∀ r ∈ l, r.args.WFAll) :
     (routeList raises m (l.map Reg.entry)).invoked
-      = (l.filter (fun g => specMatches g.args m)).map (fun g => (g.id, g.cb)) := by
+      = (l.filter (fun g => specMatchesGen g.args m)).map (fun g => (g.id, g.cb)) := by
   induction l with
   | nil => rfl
   | cons g t ih =>
     have ih' := ih (fun r hr => hwf r (by simp [hr]))
-    have hg : g.args.WF := hwf g (by simp)
+    have hg : g.args.WFAll := hwf g (by simp)
     simp only [List.map_cons, routeList, List.filter_cons]
-    have hiff := explicit_match_iff g.args m hg
-    cases hm : (Reg.entry g).rule.match m with
+    have hiff := explicit_matchGen_iff g.args m hg
+    cases hm : (Reg.entry g).rule.matchGen m with
     | call =>
-      have : specMatches g.args m = true := hiff.mp hm
+      have : specMatchesGen g.args m = true := hiff.mp hm
       simp [this, ih', Reg.entry]
     | skip =>
-      have : specMatches g.args m = false := by
-        cases hs : specMatches g.args m
+      have : specMatchesGen g.args m = false := by
+        cases hs : specMatchesGen g.args m
         · rfl
         · have := hiff.mpr hs; simp [Reg.entry] at hm; rw [hm] at this; cases this
       simp [this, ih']
     | err =>
-      have : specMatches g.args m = false := by
-        cases hs : specMatches g.args m
+      have : specMatchesGen g.args m = false := by
+        cases hs : specMatchesGen g.args m
         · rfl
         · have := hiff.mpr hs; simp [Reg.entry] at hm; rw [hm] at this; cases this
       simp [this, ih']
